@@ -1002,6 +1002,23 @@ def c03(tier):
             sw.append({"sc": "sweep-trailing-far", "hex": b.hex(), "expect": gen_reader.expect_of(v),
                        "sweep": {"trailing": [65535 - 5 - 40, 65535 - 5 + 3, 1] if tier == "quick" else [600, 65535, 13]}})
         sw.append(d)
+    # every method CODE a header may carry (quick: 0..300, the registered codes, powers of two and their neighbours, every 97th;
+    # thorough: 0..4095 and every 7th): an entry of a method this build cannot decode is refused one by one - the archive opens, the
+    # other entries read, the raw bytes stay available, the reported method is the code in the header (ZipOpen!OpenDecision)
+    codes = set(range(0, 301 if tier == "quick" else 4096)) | {1 << k for k in range(16)} | {(1 << k) - 1 for k in range(1, 17)} | {(1 << k) + 1 for k in range(1, 16)}
+    codes |= set(range(0, 65536, 97 if tier == "quick" else 7)) | {14, 18, 19, 20, 93, 94, 95, 96, 97, 98, 65535}
+    codes.discard(99)        # (99 announces WinZip-AES and needs its extra record: the AES families)
+    codes = sorted(codes)
+    for k in range(0, len(codes), 200):
+        ents = [{"name": b"m/%05d" % c, "method": c, "data": b"method %d " % c * 3} for c in codes[k:k + 200]]
+        for e in ents:
+            if e["method"] == 93:
+                e["zframes"] = 1
+        d = {"entries": ents}
+        gen_reader.resolve_zstd([d], vlib.BIN)
+        b, v = refzip.build(d)
+        sw.append({"sc": "methods-%05d" % k, "hex": b.hex(), "expect": gen_reader.expect_of(v), "max_entries": 400, "method_table": k == 0})
+    rep.notes["method_codes"] = len(codes)
     run_reader_scenarios(rep, wd, sw, "sweeps", neg_control=False)
     rep.notes["sweep_events"] = sum(1 for e in vlib.read_ndjson(os.path.join(wd, "sweeps-trace.ndjson")) if e.get("ev") == "RSweep")
     # ExtraWalk.tla: the reader's walk over an extra field at BYTE granularity (cursor on record boundaries, every ZIP64 value and the AE-x
